@@ -589,6 +589,17 @@ func ucisched(args []string) {
 			steps := realScript(r)
 			run(fmt.Sprintf("real-%v-%d-%d", spec.Name, *seed, i), steps, nil, false, spec, *delay)
 		}
+		// roots whose best move is a promotion, with and without capture, for both colours: the answer must
+		// name the promotion piece
+		for i, f := range []string{"r6k/1P6/8/8/8/8/8/K7 w - - 0 1", "k7/8/8/8/8/8/1p6/R6K b - - 0 1", "1n2k3/P7/8/8/8/8/8/4K3 w - - 0 1",
+			"4k3/8/8/8/8/8/6p1/4K2R b - - 0 1", "7k/1P6/8/8/8/8/8/K7 w - - 0 1", "k7/8/8/8/8/8/1p6/7K b - - 0 1"} {
+			spec := ucih.EngineSpec{Name: names[(i+int(*seed))%4], Hash: uint(r.Intn(2)), Depth: uint(1 + r.Intn(2)), Seed: r.Int63()}
+			if spec.Name == "morlock" {
+				spec.Depth = 0
+			}
+			steps := []stepT{{Kind: "cmd", Arg: "position fen " + f}, {Kind: "cmd", Arg: "go depth 2"}, {Kind: "pause", D: 40}, {Kind: "cmd", Arg: "isready"}, {Kind: "pause", D: 10}}
+			run(fmt.Sprintf("real-promotion-%v-%d-%d", spec.Name, *seed, i), steps, nil, false, spec, *delay)
+		}
 		// roots in which a draw can be claimed (hundred half-moves) and the side to move is in check with an
 		// illegal capture at hand: every engine must still answer with a legal move
 		for i := 0; i < *n*3; i++ {
